@@ -7,7 +7,7 @@
    regenerated from external_data.py on every run. *)
 From Coq Require Import ZArith List Bool Lia Permutation.
 From IRV Require Import Base.Exn Gen.C09Gen C07.Model C09.Model
-  C09.Proofs1 C09.Proofs2 C09.Proofs3 C09.Proofs4 C09.Proofs5 C09.Proofs6.
+  C09.Proofs1 C09.Proofs2 C09.Proofs3 C09.Proofs4 C09.Proofs5 C09.Proofs6 C09.Proofs7.
 Import ListNotations.
 Close Scope Z_scope.
 Open Scope nat_scope.
@@ -129,6 +129,38 @@ Proof.
 Qed.
 Print Assumptions C09_waits_untimed.
 
+(* The per-task program of the LTS IS the statement order of the source on this run: the event codes of the steps
+   a worker takes for one task (computed from `step`) equal the operations extracted from _write_one (parallel
+   writer), and from the loop body of _write_serial (serial writer), with the callback expanded by
+   _locked_callback's outer lock when sharded.  Both writers: callback lock(s) -> callback -> unlock ->
+   [open descriptor] -> tensor lock -> budget.acquire -> write -> release -> unlock. *)
+Theorem C09_program_order_matches_source :
+  model_task_codes false false = source_codes parallel_task_ops /\
+  model_task_codes false true = source_codes (with_outer parallel_task_ops) /\
+  model_task_codes true true = source_codes (with_outer serial_task_ops).
+Proof. exact program_order_matches_source. Qed.
+Print Assumptions C09_program_order_matches_source.
+
+(* One acquisition order for every writer (0 inner callback lock < 1 outer callback lock < 2 tensor-object lock
+   < 3 byte budget): a thread waiting for resource r owns only resources of lower rank, and nothing of the budget. *)
+Theorem C09_lock_order :
+  forall c s w t pc r, reachable c s -> s_wk s w = WRun t pc -> waits_for pc = Some r ->
+  (forall p, s_cbin s p = Some w -> 0 < r) /\ (s_cbout s = Some w -> 1 < r) /\
+  (forall o, s_tl s o = Some w -> 2 < r) /\ held_reg (s_wk s w) = 0%Z /\ held_over (s_wk s w) = 0%Z.
+Proof.
+  intros c s w t pc r Hr. apply (lock_order c); [apply lock_reachable|apply budget_reachable]; exact Hr.
+Qed.
+Print Assumptions C09_lock_order.
+
+(* Every evaluation of a tensor (serial or parallel writer, any pool) happens under a reservation of the one
+   budget: the oversized slot, or need(t) bytes that are counted in in_flight. *)
+Theorem C09_write_under_budget :
+  forall c s w t r, reachable c s -> s_wk s w = WRun t (PWrite r) ->
+  (r = oversized_token /\ (cap c < need c t)%Z /\ s_over s = true) \/
+  (r = need c t /\ (need c t <= cap c)%Z /\ (need c t <= s_inflight s)%Z).
+Proof. exact write_under_budget. Qed.
+Print Assumptions C09_write_under_budget.
+
 (* ---------- non-vacuity: a schedule recorded from the implementation (2 workers, budget 3, sizes 3,2,5,3;
    tensors 0 and 3 are the same object; tensor 2 is oversized) in which a thread sleeps in the condition
    (event 11), an oversized reservation is granted (event 10), and the save succeeds. *)
@@ -212,3 +244,25 @@ Example C09_example_open_failure :
   | None => False
   end.
 Proof. vm_compute. repeat split; reflexivity. Qed.
+
+(* zero-length tensors are ordinary tasks (entry point convert_tensors_to_external; tensors 1 and 3 are the same
+   empty object): each gets its callback, its (empty) write under an amount-0 reservation, exactly once *)
+Definition ex_cfg_zero : cfg :=
+  mkCfg [mkTask 0 0 0 [119%Z; 157%Z] false false false; mkTask 0 1 2 [] false false false;
+         mkTask 0 2 2 [96%Z; 69%Z; 36%Z] false false false; mkTask 0 1 5 [] false false false]
+        [false] [0; 0] 2%Z 1048576%Z false 1 [].
+Definition ex_sched_zero : list thread :=
+  [(TDrv 0); (TDrv 0); (TWrk 1); (TWrk 1); (TWrk 1); (TDrv 0); (TDrv 0); (TDrv 0); (TDrv 0); (TWrk 1); (TWrk 1);
+   (TWrk 0); (TWrk 0); (TWrk 0); (TWrk 0); (TWrk 1); (TWrk 0); (TWrk 1); (TWrk 1); (TWrk 0); (TWrk 1); (TWrk 1);
+   (TWrk 1); (TWrk 1); (TWrk 1); (TWrk 0); (TWrk 0); (TWrk 0); (TWrk 1); (TWrk 1); (TWrk 0); (TWrk 1); (TWrk 0);
+   (TWrk 0); (TWrk 1); (TWrk 1); (TWrk 0); (TWrk 1); (TWrk 1); (TWrk 1); (TWrk 0); (TWrk 0); (TWrk 0); (TWrk 0);
+   (TWrk 0); (TWrk 0); (TWrk 0); (TWrk 0); (TDrv 0); (TDrv 0); TMain].
+Example C09_example_zero_length :
+  match run ex_cfg_zero init ex_sched_zero with
+  | Some s => s_main s = MDeliv false /\ Permutation (s_cblog s) [0; 1; 2; 3] /\ total_evals ex_cfg_zero s = 4
+              /\ s_evals s 1 = 1 /\ s_evals s 3 = 1 /\ s_files s 0 = serial_file ex_cfg_zero 0
+  | None => False
+  end.
+Proof.
+  vm_compute. repeat split; reflexivity.
+Qed.
